@@ -229,7 +229,7 @@ theorem oversize_entry_clear_error {β} (indices : List Int) (values : List β) 
 
 /-- the design-time D5 witness (source `["abcdefghij","b"]`, map `[0,1]`, chunksize 2, value_factor 2): a clear error,
     not `outOfFuel` -/
-theorem d5_witness :
+example :
     orderedMapValidIndexedStream [0, 10, 11] [97, 98, 99, 100, 101, 102, 103, 104, 105, 106, 98] [0, 1] (-1) 2 2
       = .error (.valueError "entry does not fit the value buffer") := by rfl
 
